@@ -23,10 +23,14 @@ pub struct Mix {
     pub max_decoders: usize,
     pub size_classes: [u32; 4],
     pub source_faults: bool,
+    /// Standard-mode decoders only, and every adversarial picture is of the "PLUSPTYPE
+    /// header variety" kind (OPPTYPE mode bits, UFEP = 000 inheritance): inputs whose
+    /// meaning depends on carried-over header context (used by C17's inheritance worlds).
+    pub hdr_bias: bool,
 }
 
-pub const MIX_C01_QUICK: Mix = Mix { input: [30, 25, 22, 13, 10], max_events: 10, max_decoders: 3, size_classes: [5, 2, 0, 3], source_faults: true };
-pub const MIX_C01_THOROUGH: Mix = Mix { input: [30, 25, 22, 13, 10], max_events: 16, max_decoders: 3, size_classes: [5, 3, 1, 3], source_faults: true };
+pub const MIX_C01_QUICK: Mix = Mix { input: [30, 25, 22, 13, 10], max_events: 10, max_decoders: 3, size_classes: [5, 2, 0, 3], source_faults: true, hdr_bias: false };
+pub const MIX_C01_THOROUGH: Mix = Mix { input: [30, 25, 22, 13, 10], max_events: 16, max_decoders: 3, size_classes: [5, 3, 1, 3], source_faults: true, hdr_bias: false };
 
 struct DecGen {
     opts: u8,
@@ -40,6 +44,7 @@ struct DecGen {
     /// A picture that must come next on this decoder (second half of a
     /// two-picture adversarial scenario).
     pending: Option<(PicSpec, String)>,
+    hdr_bias: bool,
 }
 
 fn umv_component_bits(rng: &mut Rng, style: u8) -> Vec<(u32, u8)> {
@@ -58,7 +63,7 @@ fn umv_component_bits(rng: &mut Rng, style: u8) -> Vec<(u32, u8)> {
 fn adversarial(rng: &mut Rng, g: &mut DecGen, note: &mut String) -> PicSpec {
     let ptype = if g.has_ref && rng.chance(2, 3) { PType::P } else { PType::I };
     let mut s = gen_picture(rng, &g.cfg, g.fl.clone(), ptype, g.w, g.h, g.tr);
-    let kind = rng.below(15);
+    let kind = if g.hdr_bias { 12 } else { rng.below(15) };
     match kind {
         0 => {
             *note = "adversarial: more macroblocks than the picture holds".into();
@@ -235,11 +240,12 @@ fn adversarial(rng: &mut Rng, g: &mut DecGen, note: &mut String) -> PicSpec {
                     pcf: if rng.chance(1, 4) { Some((rng.byte(), rng.below(4) as u8)) } else { None },
                     par: *rng.pick(&[1u8, 1, 2, 5, 15, 0, 9]),
                     epar: (*rng.pick(&[0u8, 1, 255]), *rng.pick(&[0u8, 1, 255])),
-                    modes: if rng.chance(1, 2) { 0 } else { (rng.next_u64() & 0x1FF) as u16 & *rng.pick(&[0x1FFu16, 0x010, 0x0C0, 0x101]) },
+                    modes: if rng.chance(1, 2) { 0 } else { (rng.next_u64() & 0x1FF) as u16 & *rng.pick(&[0x1FFu16, 0x010, 0x0C0, 0x101, 0x008]) },
                     sss: rng.below(4) as u8,
                     type_code: if rng.chance(1, 5) { Some(rng.below(8) as u8) } else { None },
                     mpp_bits: if rng.chance(1, 4) { rng.below(8) as u8 } else { 0 },
                     cpm: if rng.chance(1, 6) { Some(rng.below(4) as u8) } else { None },
+                    ufep0: rng.chance(1, 4),
                 };
                 if (1..=5).contains(&fmt) {
                     let (fw, fh) = STD_FIXED[fmt as usize - 1];
@@ -398,7 +404,7 @@ pub fn gen_session(rng: &mut Rng, mix: &Mix) -> Session {
     let mut s = Session { note: String::new(), pics: Vec::new(), events: Vec::new(), max_chunk: 0, screen: 0 };
     let mut gens: Vec<DecGen> = Vec::new();
     for d in 0..ndec {
-        let opts = rng.below(4) as u8;
+        let opts = rng.below(4) as u8 & (if mix.hdr_bias { 0xFE } else { 0xFF });
         let sorenson = opts & 1 == 1;
         let flavours: &[u8] = if rng.chance(1, 24) {
             &[0, 1, 2, 3, 4] // occasionally the wrong flavour for the mode
@@ -413,7 +419,7 @@ pub fn gen_session(rng: &mut Rng, mix: &Mix) -> Session {
         let (w, h) = if cfg.is_sorenson() && rng.chance(1, 40) { gen_fixed_sorenson_size(rng, false) } else { gen_size(rng, class) };
         let (fl, w, h) = flavour_for(rng, &cfg, w, h);
         s.events.push(Ev::New { d, opts });
-        gens.push(DecGen { opts, cfg, w, h, fl, tr: rng.byte(), has_ref: false, pics_in_reader: 0, pending: None });
+        gens.push(DecGen { opts, cfg, w, h, fl, tr: rng.byte(), has_ref: false, pics_in_reader: 0, pending: None, hdr_bias: mix.hdr_bias });
     }
     let nev = 1 + rng.usize(mix.max_events);
     let fresh_reader_policy = rng.below(3); // 0 always fresh, 1 mostly, 2 reuse
@@ -426,7 +432,7 @@ pub fn gen_session(rng: &mut Rng, mix: &Mix) -> Session {
         }
         if rng.chance(1, 40) {
             // replace the decoder (new options, same generator state)
-            let opts = if rng.bool() { g.opts } else { rng.below(4) as u8 };
+            let opts = if rng.bool() { g.opts } else { rng.below(4) as u8 & (if g.hdr_bias { 0xFE } else { 0xFF }) };
             g.opts = opts;
             g.has_ref = false;
             s.events.push(Ev::New { d, opts });
